@@ -177,6 +177,44 @@ func Main(id, tier string) int {
 			os.Remove(cfExe)
 		}
 	}
+	// cases that need several known findings repaired at once
+	if total > 0 && chk.Custom == nil && countCases(remaining) > 0 {
+		var sites []Finding
+		for _, f := range findings {
+			if f.Kind == "site" {
+				sites = append(sites, f)
+			}
+		}
+		if len(sites) >= 2 {
+			if cfExe, err := buildCounterfactual(env, sites); err == nil {
+				still, internal := recheck(env, cfExe, scopes, remaining)
+				sum.Internal = append(sum.Internal, internal...)
+				n := uint64(0)
+				for name, list := range remaining {
+					var keep []uint64
+					for _, ix := range list {
+						if still[name][ix] {
+							keep = append(keep, ix)
+						} else {
+							n++
+						}
+					}
+					remaining[name] = keep
+				}
+				os.Remove(cfExe)
+				if n > 0 {
+					ids := ""
+					for _, f := range sites {
+						ids += f.ID + " "
+					}
+					known["combination"] = n
+					lines = append(lines, fmt.Sprintf("KNOWN-FINDING: property=%s cases that fail through several listed findings at once and pass only with all of them repaired together [%s] cases=%d", id, strings.TrimSpace(ids), n))
+				}
+			} else {
+				fmt.Fprintf(env.Log, "note: combined counterfactual build unavailable (%v)\n", err)
+			}
+		}
+	}
 	for _, f := range findings {
 		if n := known[f.ID]; n > 0 {
 			lines = append(lines, fmt.Sprintf("KNOWN-FINDING: property=%s %s [%s %s] cases=%d", id, f.What, f.ID, f.Site, n))
